@@ -10,21 +10,21 @@ CHECKS = {
          'As C01 for lists, sets and hashes.'),
  'C04': ('model_checking', 'TLC model checking of spec/ZSets.tla order laws (MC_Data/MC_C04) + generated tests and random histories + skip-list invariant hook + TLC trace validation',
          'Every sorted-set reply of the explored histories agrees with the (score, member) order derived in the spec; the skip list is structurally checked after every mutation; the order laws are model-checked on a bounded instance.'),
- 'C07': ('model_checking', 'TLC model checking of all interleavings of 2 connections over the transaction catalogue (MC_Txn) + generated tests + concurrent client threads ordered by the server-side command log + TLC trace validation',
+ 'C07': ('model_checking', 'TLC model checking of all interleavings of 2 connections over the transaction catalogue (MC_Txn) + generated tests + concurrent client threads (transactions of up to thousands of commands, scripts, pipelines, readers) ordered by the server-side command log + pushes inside EXEC with blocked waiters + CLIENT KILL / close inside MULTI + the forms catalogue queued in transactions + TLC trace validation',
          'EXEC is one atomic step of the spec; every reply of concurrently running clients must be explained by the sequential spec in the logged execution order, so an interleaving inside EXEC, a lost slot or reordering is rejected.'),
  'C14': ('model_checking', 'TLC model checking of pub/sub (MC_PubSub: exactly-once per subscription, ack counts) + generated tests and seeded multi-client histories on the real server + TLC trace validation of every ack, PUBLISH count and push frame',
          'Every acknowledgement, PUBLISH count and push frame of the explored histories is matched against the per-subscriber inbox of the spec; a final quiesce requires that nothing owed is missing.'),
- 'C05': ('model_checking', 'enumerated pipelines x segmentations written to the real server (each chunk a separate read via the loop-iteration hook), i-th reply paired with i-th request and with the server-side command log, TLC trace validation; TLC model checking of the transcribed parser for chunking independence (shared with C20)',
+ 'C05': ('model_checking', 'enumerated pipelines x segmentations (incl. 100 ... 10 000 requests in one write and several MiB of outstanding replies) written to the real server (each chunk a separate read via the loop-iteration hook), i-th reply paired with i-th request and with the server-side command log, TLC trace validation; TLC model checking of the transcribed parser for chunking independence (shared with C20)',
          'For every explored (pipeline, segmentation) the sequence of reply frames read by an independent RESP reader is, request by request, what the spec allows and what the server computed; hostile bytes are placed in every argument position; protocol violations must be answered by an error.'),
- 'C08': ('model_checking', 'TLC model checking of WATCH dirtiness against a ghost over all interleavings of 2 connections (MC_Txn) + enumerated scenarios <pre-state x write command x path x target> on the real server + TLC trace validation',
+ 'C08': ('model_checking', 'TLC model checking of WATCH dirtiness against a ghost over all interleavings of 2 connections (MC_Txn) + enumerated scenarios <pre-state x write command x path x target>, two-watcher scenarios, random four-connection WATCH histories and the forms catalogue run by another connection (directly, inside EXEC, from a script) under a watcher of the named / of the other keys, on the real server + TLC trace validation',
          'For every enumerated scenario the EXEC reply (nil vs array) and the dataset afterwards are what the spec requires: abort when a watched entry changed by any listed means, no abort when nothing addressed it.'),
- 'C17': ('model_checking', 'TLC model checking of the authentication gate (MC_Txn with Password) + generated tests + every dispatched command name sent unauthenticated on a requirepass server + TLC trace validation incl. the view of an authenticated control connection',
-         'Every command name the server dispatches (checked against the spec table) is refused with one error reply and no effect for unauthenticated connections in the explored states; only the exact password authenticates.'),
+ 'C17': ('model_checking', 'TLC model checking of the authentication gate (MC_Txn with Password) + generated tests + every dispatched command name (also names outside the spec table, probed as unknown commands) sent unauthenticated on a requirepass server with a canary request behind it, unauthenticated connections killed while their pipeline is in flight in the same event-loop pass (loop gate hook) + TLC trace validation incl. the view of an authenticated control connection',
+         'Every command name the server dispatches is refused with one error reply and no effect for unauthenticated connections in the explored states; only the exact password authenticates.'),
  'C18': ('model_checking', 'TLC model checking of the database frame property (MC_Txn/MC_C18) + generated tests + random multi-database histories with 16-way dumps + TLC trace validation',
          'Every reply and the dump of all 16 databases after the explored histories match a 16-way model in which a command touches only the database selected on its connection at that time.'),
- 'C02': ('model_checking', 'TLC model checking of the implementation-shaped expiry mechanism (spec/impl/ImplSweeper.tla) + random TTL histories, stale-index scenarios (two sweeper passes) and the forced collect/delete race (sync-point hook) on the real server + TLC trace validation with deadline intervals on the observer clock',
+ 'C02': ('model_checking', 'TLC model checking of the implementation-shaped expiry mechanism (spec/impl/ImplSweeper.tla) + an inductive invariant of that mechanism discharged by Apalache for unbounded time (spec/impl/ImplSweeperInd.tla, with the pinned design as a control that must fail) + random TTL histories, the forms catalogue over live and passed deadlines through direct / MULTI / script paths, stale-index scenarios (two sweeper passes) and the forced collect/delete race (sync-point hook) on the real server + TLC trace validation with deadline intervals on the observer clock',
          'Every read of the explored histories, through every command family, sees a key with a TTL exactly until its deadline (interval reasoning on the observer clock), and no key without a due deadline is ever deleted, including in the sweeper race window that the hook forces.'),
- 'C13': ('model_checking', 'TLC model checking of the blocking-pop reference relation with ghost conservation bags (MC_Blocking) + directed and seeded random asynchronous schedules on the real server ordered by the server-side log of commands, wake-ups and time-outs (hooks H3/H4), registry snapshot (H5) at quiescent points + TLC trace validation',
+ 'C13': ('model_checking', 'TLC model checking of the implementation-shaped mechanism (spec/impl/ImplBlocking.tla: registry queues, wake queue, event-loop phases, serve loop; pinned design behind switches) and of the blocking-pop reference relation with ghost conservation bags (MC_Blocking) + directed (incl. re-blocking after a multi-key serve, pushes inside EXEC / scripts, same key name in several databases in one pass, CLIENT KILL of waiters) and seeded random asynchronous schedules on the real server ordered by the server-side log of commands, wake-ups and time-outs (hooks H3/H4), registry snapshot (H5) at quiescent points + TLC trace validation',
          'For every explored schedule every reply, every served/time-out event, the final lists and the registry snapshot are what the reference relation allows: elements conserved, FIFO service per key, nobody stranded at quiescence, no leftover registration, time-outs not early and not missing.'),
  'C09': ('model_checking', 'TLC trace validation of SAVE / kill / restart round trips of command-built datasets against the persistence relation of the spec (CmdSAVE/Restarted in spec/Ferrous.tla); the bounded instance is trivial, the states reported are those of the trace validation',
          'For every explored dataset (every type, sizes around the length-encoding boundaries, all 16 databases, TTLs shorter and longer than the downtime, marker strings, infinite scores) the dump of all databases after the restart equals Restart(dump before SAVE), deadlines to clock granularity.'),
@@ -34,15 +34,15 @@ CHECKS = {
          'Round trip through the real serializer and parser equals the TLA+ Ser for every enumerated frame tree; for every enumerated byte string the real parser is total, gives the same frames/errors for every chunking, and its peak allocation is bounded by the bytes received.'),
  'C11': ('model_checking', 'TLC trace validation of the redo-log relation (spec/Ferrous.tla AofApply/AofStep): after every request the frames appended to the real AOF, re-executed with the reference semantics, must deterministically reproduce the live dataset; plus re-execution of the whole file on an empty real server with dump comparison',
          'For every explored history (all value types, direct and MULTI/EXEC, several databases) the AOF consists of complete frames after every request and replays, request by request and as a whole on a real empty server, to the live dataset (values; TTL presence); an entry whose replay is not deterministic is rejected.'),
- 'C12': ('model_checking', 'TLC trace validation of scripts generated from a DSL: the spec runs the recorded program through the same Exec1 as direct commands, as one step, with the standard RESP<->Lua conversions (spec/Ferrous.tla RunProg); every generator command wrapped in redis.call/pcall, return-value shapes, error flow, EVALSHA twins, sandbox probes — each an independent segment; atomicity through the concurrent C07 workload',
+ 'C12': ('model_checking', 'TLC trace validation of scripts generated from a DSL: the spec runs the recorded program through the same Exec1 as direct commands, as one step, with the standard RESP<->Lua conversions (spec/Ferrous.tla RunProg); every generator command wrapped in redis.call/pcall, return-value shapes, error flow, EVALSHA twins, sandbox probes — each an independent segment; the forms catalogue (incl. consumer-group forms and the commands only the executor implements, spec/Extras.tla) through every script path; atomicity through concurrent client threads running script transfers, ordered by the server-side command log',
          'For every explored segment the reply of the script and the dataset afterwards equal what the direct command semantics prescribe after conversion; forbidden globals and commands are unreachable; known non-standard conversions and the UTF-8 restriction are listed findings.'),
  'C15': ('model_checking', 'TLC model checking of spec/Streams.tla laws (MC_Data/MC_C15: XLEN, strictly increasing ids, last id monotone, XRANGE - + = all) + generated per-transition tests and seeded random histories on the real server + TLC trace validation',
          'Every stream reply of the explored histories (XADD auto/explicit ids incl. colliding and maximal ids, XDEL, XTRIM, range reads with all bound positions and COUNT) and the dataset afterwards are those of the ordered-log model; listed deviations are open findings.'),
  'C16': ('model_checking', 'TLC model checking of consumer-group laws (MC_Data/MC_C16: XPENDING summary = PEL, per-consumer counts) + generated tests and seeded random multi-group histories + TLC trace validation',
          'Every XREADGROUP/XACK/XCLAIM/XPENDING/XGROUP reply of the explored histories matches a model of group cursor + pending map; listed deviations are open findings.'),
- 'C10': ('model_checking', 'fault enumeration of every n-th write of a save (hook) + BGSAVE parked at each per-key step by sync points while a client mutates the key, dump loaded by restart and validated by TLC against the per-key history the spec keeps during the save (BgTrack) + every prefix / byte corruptions of valid dumps loaded by the real loader in a child under RLIMIT_AS with a counting allocator',
+ 'C10': ('model_checking', 'TLC model checking of the snapshot discipline (spec/impl/ImplBgsave.tla) + fault enumeration of every n-th write of a save (hook) and of writes refused by the operating system (RLIMIT_FSIZE at block boundaries and the last bytes) + BGSAVE and the auto-save monitor parked at each per-key step by sync points while a client mutates the key, dump loaded by restart and validated by TLC against the per-key history the spec keeps during the save (BgTrack) + background saves of large structured values under pipelined writers (no sync point), each dump loaded by the real loader and checked by the harness + every prefix / byte corruptions (header-complete) of valid dumps loaded by the real loader in a child under RLIMIT_AS with a counting allocator',
          'For every enumerated failing write the previous dump is byte-identical and later saves work; for every forced schedule the loaded entry of every key (value and deadline together) is one the key held during the save and the file is loadable; for every enumerated truncated/corrupted file the loader ends with an error or a key-wise equal partial load within allocation and time bounds.'),
- 'C06': ('exploration', 'enumerated boundary values in every numeric argument position of every command against keys of every type + all short byte strings over the protocol alphabet, absurd lengths, deep nesting, truncations on fresh connections; each followed by a probe (PING + sentinel dataset on a fresh connection) validated by the TLA+ trace spec, in which a crash has no action',
+ 'C06': ('exploration', 'enumerated boundary values in every numeric argument position of every command against keys of every type, directly and through redis.call / redis.pcall (incl. the commands only the script executor implements), scripts with hostile return values / error objects / call arguments, a multi-key x key-state x shard-placement matrix, snapshots of the state the hostile commands leave behind + all short byte strings over the protocol alphabet, absurd lengths, deep nesting, truncations on fresh connections; each followed by a probe (PING + sentinel dataset on a fresh connection) validated by the TLA+ trace spec, in which a crash has no action',
          'No enumerated input made the server exit, hang or lose the sentinel data. Exploration level: the spec contributes the input space and the acceptance rule, nothing is decided outside the enumeration (a coverage-guided fuzzer would be the natural complement; it is outside this technique family).'),
 }
 NOT_YET = {}
